@@ -11,6 +11,12 @@ fi
 for exe in "$@"; do
   gen=gen/$exe
   mkdir -p "$gen"
+  # make sure every Coq module the extraction file requires is compiled (a fresh checkout only
+  # builds the dependency cone of the claimed Props files)
+  deps=$(coqdep -Q ../coq RH extract/$exe.v 2>/dev/null | tr ' ' '\n' | grep '^\.\./coq/.*\.vo$' | sed 's|^\.\./coq/||' | sort -u | tr '\n' ' ')
+  if [ -n "$deps" ]; then
+    ../coq/build.sh $deps >/dev/null || { echo "coq build of extraction dependencies failed: $deps"; exit 1; }
+  fi
   stamp=$gen/.stamp
   need=0
   [ -f "$stamp" ] || need=1
